@@ -217,6 +217,7 @@ trace1 = z3.Function('trace1', A2R, INT, REAL)
 sumdot = z3.Function('sumdot', A2R, A2R, INT, REAL)              # sum of all entries of the matrix product X.Y (m x m)
 umul = z3.Function('umul', REAL, REAL, REAL)                     # product of two non-constant reals, uninterpreted (contracts with nonlinear='uf')
 udiv = z3.Function('udiv', REAL, REAL, REAL)                     # quotient by a non-constant real, uninterpreted
+Qrawg = z3.Function('Qrawg', A2R, A1I, REAL, REAL, INT, REAL)      # sum_{x,y same module} (M[x][y] - gamma*kout[x]*kin[y]/sd), explicit divisor sd
 QrawB = z3.Function('QrawB', A2R, A1I, INT, REAL)                 # sum_{x,y<n} B[x][y] [c[x] = c[y]] for an arbitrary kernel B
 Qmod = z3.Function('Qmod', A2R, A1I, REAL, INT, REAL)            # modularity (1/s) sum_{x,y} (W[x][y] - gamma k_out[x] k_in[y] / s) [ci[x] = ci[y]]
 isperm = z3.Function('isperm', A1I, INT, BOOL)          # p restricted to [0,n) is a bijection of [0,n)
@@ -305,6 +306,11 @@ def spec_axioms():
     # products / quotients of two symbolic reals are kept uninterpreted (umul/udiv) with the shape the code computes them in
     ax.append(z3.ForAll([M, c, u, l, gam, n], z3.Implies(z3.And(inu, l != cu, s_ != 0), Qmod(M, Sc, gam, n) - Qmod(M, c, gam, n) == udiv(out_part + in_part, s_)),
                         patterns=[Qmod(M, Sc, gam, n)]))
+    sd = z3.Real('sd_')
+    out_g = (modsum(M, c, u, l - 1, n) - modsum(M, c, u, cu - 1, n) + wuu) - udiv(umul(umul(gam, ku_o), degsumT(M, c, l - 1, n) - degsumT(M, c, cu - 1, n) + ku_i), sd)
+    in_g = (modsumT(M, c, u, l - 1, n) - modsumT(M, c, u, cu - 1, n) + wuu) - udiv(umul(umul(gam, ku_i), degsum(M, c, l - 1, n) - degsum(M, c, cu - 1, n) + ku_o), sd)
+    ax.append(z3.ForAll([M, c, u, l, gam, sd, n], z3.Implies(z3.And(inu, l != cu), Qrawg(M, Sc, gam, sd, n) - Qrawg(M, c, gam, sd, n) == out_g + in_g),
+                        patterns=[Qrawg(M, Sc, gam, sd, n)]))
     # arbitrary kernel B (Lean: Qraw_move): moving u to a different module l
     ax.append(z3.ForAll([M, c, u, l, n], z3.Implies(z3.And(inu, l != cu), QrawB(M, Sc, n) - QrawB(M, c, n) ==
                                                     (modsum(M, c, u, l - 1, n) - modsum(M, c, u, cu - 1, n) + wuu) + (modsumT(M, c, u, l - 1, n) - modsumT(M, c, u, cu - 1, n) + wuu)),
@@ -585,6 +591,12 @@ class Engine:
             if isinstance(op, ast.Pow): return a ** b
         if isinstance(a, fractions.Fraction) or isinstance(b, fractions.Fraction):
             pass
+        if isinstance(op, ast.Mult) and (is_z3(a) or is_z3(b)):
+            za, zb = (to_z3(a) if not isinstance(a, bool) else z3.BoolVal(a)), (to_z3(b) if not isinstance(b, bool) else z3.BoolVal(b))
+            if za.sort() == BOOL and zb.sort() != BOOL:
+                return z3.If(za, zb, to_z3(0, zb.sort()))
+            if zb.sort() == BOOL and za.sort() != BOOL:
+                return z3.If(zb, za, to_z3(0, za.sort()))
         x, y = num2(a, b)
         if isinstance(op, ast.Add): return x + y
         if isinstance(op, ast.Sub): return x - y
@@ -865,15 +877,88 @@ class Engine:
         c = self.ev(node.test, st)
         c = truth(c)
         out = []
+        npc = len(st.pc)
+        b1 = b2 = None
         if not z3.is_false(z3.simplify(c)):
             s1 = st.fork()
             s1.pc.append(c)
-            out += self.block(node.body, s1)
+            b1 = self.block(node.body, s1)
+            out += b1
         if not z3.is_true(z3.simplify(c)):
             s2 = st.fork()
             s2.pc.append(z3.Not(c))
-            out += self.block(node.orelse, s2) if node.orelse else [(s2, 'fall')]
+            b2 = self.block(node.orelse, s2) if node.orelse else [(s2, 'fall')]
+            out += b2
+        # join: if each branch falls through with exactly one state, merge the two states (keeps the number of paths linear)
+        if b1 is not None and b2 is not None:
+            f1 = [s_ for s_, o in b1 if o == 'fall']
+            f2 = [s_ for s_, o in b2 if o == 'fall']
+            if len(f1) == 1 and len(f2) == 1:
+                m = self.merge_states(c, f1[0], f2[0], npc)
+                if m is not None:
+                    return [(m, 'fall')] + [(s_, o) for s_, o in b1 + b2 if o != 'fall']
         return out
+
+    def merge_states(self, c, a, b, npc):
+        """state a holds under c, b under not c; both extend a common prefix pc[:npc]. Returns the merged state or None."""
+        if a.pc[:npc] != b.pc[:npc] and not all(x.eq(y) for x, y in zip(a.pc[:npc], b.pc[:npc])):
+            return None
+        m = a.fork()
+        m.pc = list(a.pc[:npc])
+        ea = z3.And(*a.pc[npc + 1:]) if len(a.pc) > npc + 1 else None
+        eb = z3.And(*b.pc[npc + 1:]) if len(b.pc) > npc + 1 else None
+        if ea is not None:
+            m.pc.append(z3.Implies(c, ea))
+        if eb is not None:
+            m.pc.append(z3.Implies(z3.Not(c), eb))
+
+        def mval(x, y):
+            if x is y:
+                return x
+            if is_z3(x) and is_z3(y) and x.eq(y):
+                return x
+            if isinstance(x, Ref) and isinstance(y, Ref) and x.oid == y.oid:
+                return x
+            if (is_z3(x) or isinstance(x, (bool, int, float, fractions.Fraction))) and (is_z3(y) or isinstance(y, (bool, int, float, fractions.Fraction))):
+                if not is_z3(x) and not is_z3(y) and x == y and type(x) == type(y):
+                    return x
+                zx, zy = to_z3(x), to_z3(y)
+                if zx.sort() == BOOL and zy.sort() == BOOL:
+                    return z3.If(c, zx, zy)
+                zx, zy = num2(zx, zy)
+                return z3.If(c, zx, zy)
+            if isinstance(x, str) and x == y:
+                return x
+            if x is None and y is None:
+                return None
+            raise _NoMerge()
+        try:
+            for table in ('env', 'ghost'):
+                ta, tb = getattr(a, table), getattr(b, table)
+                keys = set(ta) | set(tb)
+                res = {}
+                for k in keys:
+                    if k in ta and k in tb:
+                        res[k] = mval(ta[k], tb[k])
+                    # names bound on one side only are dropped (a later read raises 'unknown name': then no merge was possible anyway)
+                setattr(m, table, res)
+            heap = {}
+            for oid in set(a.heap) | set(b.heap):
+                if oid in a.heap and oid in b.heap:
+                    oa, ob = a.heap[oid], b.heap[oid]
+                    o = oa.clone()
+                    if not oa.term.eq(ob.term):
+                        o.term = z3.If(c, oa.term, ob.term)
+                        o.meta = {}
+                    if any(not (to_z3(p, INT)).eq(to_z3(q, INT)) for p, q in zip(oa.shape, ob.shape)):
+                        raise _NoMerge()
+                    heap[oid] = o
+                else:
+                    heap[oid] = (a.heap.get(oid) or b.heap.get(oid)).clone()
+            m.heap = heap
+        except _NoMerge:
+            return None
+        return m
 
     def st_Return(self, node, st):
         val = self.ev(node.value, st) if node.value is not None else None
@@ -1214,6 +1299,10 @@ class Engine:
         return self.obls
 
 
+class _NoMerge(Exception):
+    pass
+
+
 class Fork:
     """value-level fork: list of (condition, value, exception)."""
 
@@ -1550,6 +1639,20 @@ def _sb_lemma_relabel(eng, st, node):
     return z3.Implies(hyp, Qmod(W, c1, g, n) == Qmod(W, c2, g, n))
 
 
+def _sb_lemma_relabel_g(eng, st, node):
+    """LEMMA (Lean: Qraw_relabel): the un-normalised quality depends on the labels only through the equality pattern.
+    lemma_relabel_g(M, c1, c2, gamma, sd, n)."""
+    W = _term2(eng, st, eng.ev(node.args[0], st))
+    c1 = _term1i(eng, st, eng.ev(node.args[1], st))
+    c2 = _term1i(eng, st, eng.ev(node.args[2], st))
+    g = to_z3(eng.ev(node.args[3], st), REAL)
+    sd = to_z3(eng.ev(node.args[4], st), REAL)
+    n = to_z3(eng.ev(node.args[5], st), INT)
+    y, zz = z3.Ints('y!r z!r')
+    hyp = z3.ForAll([y, zz], z3.Implies(z3.And(y >= 0, y < n, zz >= 0, zz < n), (z3.Select(c1, y) == z3.Select(c1, zz)) == (z3.Select(c2, y) == z3.Select(c2, zz))))
+    return z3.Implies(hyp, Qrawg(W, c1, g, sd, n) == Qrawg(W, c2, g, sd, n))
+
+
 def _sb_lemma_q_from_aggregate(eng, st, node):
     """LEMMA (Lean: q_from_aggregate, DESIGN Appendix A.2): if w is the module-by-module aggregate of W for labels ci in 1..m,
     X = w / s cell by cell and s = total weight != 0, then trace(w)/s - gamma * sum(X.X) is the modularity of (W, ci).
@@ -1578,6 +1681,23 @@ def _sb_result_is_empty(eng, st, node):
 def _sb_hopsint(eng, st, node):
     f = st.ghost.get('hint')
     return f(to_z3(eng.ev(node.args[0], st), INT), to_z3(eng.ev(node.args[1], st), INT))
+
+
+def _sb_Qrawg(eng, st, node):
+    M = _term2(eng, st, eng.ev(node.args[0], st))
+    c = _term1i(eng, st, eng.ev(node.args[1], st))
+    return Qrawg(M, c, to_z3(eng.ev(node.args[2], st), REAL), to_z3(eng.ev(node.args[3], st), REAL), to_z3(eng.ev(node.args[4], st), INT))
+
+
+def _sb_umul(eng, st, node):
+    return umul(to_z3(eng.ev(node.args[0], st), REAL), to_z3(eng.ev(node.args[1], st), REAL))
+
+
+def _sb_lemma_umul_linear(eng, st, node):
+    """LEMMA (real arithmetic, trivially true of multiplication; Lean: mul_sub, mul_two_comm): umul(d, a) - umul(d, b) == umul(d, a - b)
+    and umul(d, 2 * a) == 2 * umul(d, a), instantiated for the given terms.  lemma_umul_linear(d, a, b)."""
+    d, a, b = [to_z3(eng.ev(x, st), REAL) for x in node.args]
+    return z3.And(umul(d, a) - umul(d, b) == umul(d, a - b), umul(d, 2 * a) == 2 * umul(d, a), umul(d, 2 * b) == 2 * umul(d, b), umul(d, 2 * (a - b)) == 2 * umul(d, a - b))
 
 
 def _sb_same_object(eng, st, node):
@@ -1620,6 +1740,6 @@ SPEC_BUILTINS = {
     'dot2': _sb_dot2, 'isperm': _sb_isperm, 'same_object': _sb_same_object, 'unchanged': _sb_unchanged,
     'snapshot': _sb_snapshot, 'argref': _sb_argref, 'lam1': _sb_lam1, 'result_is_empty': _sb_result_is_empty, 'hopsint': _sb_hopsint, 'lam2': _sb_lam2, 'unique_witness': _sb_unique_witness, 'member': _sb_member, 'dset': _sb_dset(dset), 'rset': _sb_dset(rset), 'wset': _sb_dset(wset), 'cntb': _sb_cntb,
     'modsum': _mk_mod(modsum, 3), 'modsumT': _mk_mod(modsumT, 3), 'degsum': _mk_mod(degsum, 2), 'degsumT': _mk_mod(degsumT, 2), 'agg': _mk_mod(agg, 3),
-    'Qmod': _sb_Qmod, 'QrawB': _mk_mod(QrawB, 1), 'tsum': _mk_specfn(tsum, 1), 'csum': _mk_specfn(csum, 2), 'lemma_modularity': _sb_lemma_modularity, 'lemma_knm_sums': _sb_lemma_knm_sums, 'lemma_relabel': _sb_lemma_relabel, 'lemma_q_from_aggregate': _sb_lemma_q_from_aggregate,
+    'Qmod': _sb_Qmod, 'Qrawg': _sb_Qrawg, 'umul': _sb_umul, 'lemma_umul_linear': _sb_lemma_umul_linear, 'QrawB': _mk_mod(QrawB, 1), 'tsum': _mk_specfn(tsum, 1), 'csum': _mk_specfn(csum, 2), 'lemma_modularity': _sb_lemma_modularity, 'lemma_knm_sums': _sb_lemma_knm_sums, 'lemma_relabel': _sb_lemma_relabel, 'lemma_relabel_g': _sb_lemma_relabel_g, 'lemma_q_from_aggregate': _sb_lemma_q_from_aggregate,
     'lemma_masked_degree': _sb_lemma_masked_degree, 'lemma_degree_monotone': _sb_lemma_degree_monotone, 'result': _sb_result, 'raised': _sb_raised, 'shape_is': _sb_shape_is,
 }
